@@ -143,6 +143,9 @@ def check(chk, fx):
     caprules.cap_s(chk, fx, only=("initial state", "shift", "shift_recovery_token"))
     from .. import primrules
     primrules.prims(chk, fx, "GAPI")
+    primrules.prims(chk, fx, "NAMEFILL")      # which symbol is the error symbol
+    from .. import termrules
+    termrules.termapi(chk, fx)
     from .. import deporder, goldenreg as _gr
     deporder.group(chk, fx, "DEPORD", "dependence order of statements (driver and recovery)", _gr.DEP_GROUPS["DRV"])
 
